@@ -25,6 +25,8 @@ let parse_step step =
   match String.split_on_char '|' step with
   | ["S"] -> PSet
   | ["Z"] -> PSetOther
+  | ["G"] | ["GT"] -> PGet
+  | ["Q"] | ["QT"] -> PIsSet
   | [("I" | "T"); kind; arg; key; tags] ->
     PInvoke { i_macro = parse_macro kind; i_key = unhex0 key; i_arg = parse_arg arg; i_tags = parse_tags tags }
   | _ -> failwith ("bad step " ^ step)
@@ -34,7 +36,10 @@ let parse_m prefix dtags dcid script steps =
               c_container = (if dcid = "~" then None else Some (unhex0 dcid)) } in
   (cfg, parse_script script, List.map parse_step (String.split_on_char '%' steps))
 
-let show_obs o =
+let show_obs st o =
+  match o.po_flag with
+  | Some b -> (match st with PIsSet -> "q" | _ -> "g") ^ (if b then "1" else "0") ^ ",~,~,~"
+  | None ->
   let ret = if o.po_panicked then "panic" else if o.po_stuck then "notype" else "unit" in
   let em = if o.po_emitted = [] then "~" else String.concat "+" (List.map hex0 o.po_emitted) in
   let hd = if o.po_handled = [] then "~" else String.concat "+" (List.map show_err o.po_handled) in
@@ -45,7 +50,8 @@ let run_case line =
   match tokens line with
   | ["M"; prefix; dtags; dcid; script; steps] ->
     let (cfg, sc, st) = parse_m prefix dtags dcid script steps in
-    String.concat "|" (List.map show_obs (run_process cfg other_cfg None sc st))
+    let observed = List.filter (fun s -> match s with PSet | PSetOther -> false | _ -> true) st in
+    String.concat "|" (List.map2 show_obs observed (run_process cfg other_cfg None sc st))
   | _ -> failwith ("bad mac case: " ^ line)
 
 (* the same case as a Gallina equation (kernel cross-check of the extracted macro model) *)
@@ -59,16 +65,16 @@ let g_macro = function
   | StatsdCount -> "StatsdCount" | StatsdTime -> "StatsdTime" | StatsdGauge -> "StatsdGauge" | StatsdMeter -> "StatsdMeter"
   | StatsdHistogram -> "StatsdHistogram" | StatsdDistribution -> "StatsdDistribution" | StatsdSet -> "StatsdSet"
 let g_pstep = function
-  | PSet -> "PSet" | PSetOther -> "PSetOther"
+  | PSet -> "PSet" | PSetOther -> "PSetOther" | PGet -> "PGet" | PIsSet -> "PIsSet"
   | PInvoke i -> Printf.sprintf "(PInvoke {| i_macro := %s; i_key := %s; i_arg := %s; i_tags := %s |})"
                    (g_macro i.i_macro) (g_str i.i_key) (g_arg i.i_arg)
                    (g_lst "(list N * list N)" (fun (k, v) -> g_pair (g_str k) (g_str v)) i.i_tags)
 let g_expr = function
   | XKey -> "XKey" | XVal -> "XVal"
   | XTagKey i -> "(XTagKey " ^ g_nat i ^ ")" | XTagVal i -> "(XTagVal " ^ g_nat i ^ ")"
-let g_pobs o = Printf.sprintf "{| po_panicked := %s; po_stuck := %s; po_emitted := %s; po_handled := %s; po_evals := %s |}"
+let g_pobs o = Printf.sprintf "{| po_panicked := %s; po_stuck := %s; po_emitted := %s; po_handled := %s; po_evals := %s; po_flag := %s |}"
     (g_bool o.po_panicked) (g_bool o.po_stuck) (g_lst "(list N)" g_str o.po_emitted)
-    (g_lst "merror" g_merr o.po_handled) (g_lst "expr" g_expr o.po_evals)
+    (g_lst "merror" g_merr o.po_handled) (g_lst "expr" g_expr o.po_evals) (g_option g_bool o.po_flag)
 
 let coq_case line =
   if String.length line > 1400 then None else
